@@ -105,10 +105,13 @@ theorem ids_new {base : Expr} {p q : PS} (h : Trace base p q) (ids0 : List (List
   | fi b _ ih => simpa [PS.freshId] using genCall_ok ih b.toList
   | emit st _ _ ih => simpa [PS.emit] using ih
 
-/-- the generators `apply_statement_rewriter` seeds from the phase know every name and id of it -/
-theorem initPS_ok (stmts : List FStmt) :
-    GenOK ((usedIdents stmts).map String.toList) (initPS stmts).vars (initPS stmts).newVars ∧
-    GenOK (stmts.map (·.id)) (initPS stmts).ids (initPS stmts).newIds := by
+/-- the generators `apply_statement_rewriter` seeds from the phase know every name and id of it:
+    the variables of its statements AND the names its loop / conditional nodes mention (`extra`;
+    the pinned tree left those out, so a loop variable called `tmp` that no statement of the loop
+    body mentioned was handed out again — repaired by a `fix:` commit) -/
+theorem initPS_ok (stmts : List FStmt) (extra : List Name) :
+    GenOK ((usedIdents stmts ++ extra).map String.toList) (initPS stmts extra).vars (initPS stmts extra).newVars ∧
+    GenOK (stmts.map (·.id)) (initPS stmts extra).ids (initPS stmts extra).newIds := by
   constructor
   · refine ⟨rfl, ?_, by simp [initPS], by simp [initPS], by simp [initPS]⟩
     intro n hn
